@@ -1,13 +1,33 @@
 package main
 
 // rules: how cases are generated and what makes one non-trivial / distinct (per property).
-var rules = map[string]string{}
+var rules = map[string]string{
+	"C01": "Cases: (entry point, byte string) pairs. Sweep: every entry point x total length x 70 first octets x 4 packet types x 13 length-field values x 5 fills (distinct by construction; the version-2 half is counted as non-trivial). Generated: hostile bytes (valid encodings with directed header/field mutations, truncation, splices, concatenations, forced headers, random, TWCC status-counter-wrap recipe, frames of 64-256 KiB), each given to rtcp.Unmarshal, to the decoder its header selects, to one other decoder and to one sub-decoder. Non-trivial: the input passes the entry point's first gate (>= 4 octets, version 2, own PT/FMT for typed decoders), i.e. reaches body parsing; distinct by FNV-1a of (entry point, bytes).",
+	"C02": "Cases: model values of all 16 types drawn from the well-formed domain D (boundary-biased fields; lists at 0/1/max; text lengths mod 4; sub-tick TWCC deltas; compounds) and lists of 1..12 (thorough up to 40) such values. Non-trivial: at least one non-empty variable-length part or a field at a boundary value; lists need >= 2 members. Distinct by FNV-1a of the JSON form of the model value.",
+	"C03": "Cases: model values in D as for C02. Non-trivial: at least one non-empty variable-length part or a field at a boundary value. Distinct by FNV-1a of the JSON form of the model value.",
+	"C04": "Cases: (model value in D, variant) where the reference encoder produces an RFC-valid encoding of the value that pion's own encoder does not necessarily produce (TWCC chunkings incl. symbol 3 and over-long final run, unnormalised REMB pairs, APP padding words, non-zero reserved bits in FIR/XR/CCFB, BYE reason forms, canonical, frames >= 64 KiB) or a count-inflated SR/RR/SDES/BYE. Non-trivial: the encoding differs from pion's own Marshal output for the value, or it is a count-inflated variant. Distinct by FNV-1a of the JSON form of the case.",
+	"C05": "Cases: model values in D plus deliberately unaligned variable-length parts (SR/RR extensions of any length, odd XR chunk counts, unknown XR bodies of any length). Non-trivial: a variable-length part whose natural size is not a multiple of 4, or a list at 0/1/max. Distinct by FNV-1a of the JSON form.",
+	"C06": "Cases: sequences of 1..12 well-framed frames (reference encodings in strict and pion-readable form, pion's own output, mutated bodies, forced headers, raw frames) plus one optional fault (truncation inside a frame, 1..3 surplus octets, trailing over-long header, empty datagram) and a split point. Non-trivial: a fault is injected, or >= 2 frames of different (PT, FMT) with a rest-consuming decoder (SR/RR/SDES/APP/XR/CCFB/TWCC) followed by another frame. Distinct by FNV-1a of the JSON form.",
+	"C07": "Cases: (a) every one of the 256 x 32 (PT, FMT) header cells with generated bodies (valid bodies on table rows, random bodies everywhere) - each cell is distinct and non-trivial by construction; (b) every ordered pair (decoder T, foreign kind U) with generated well-formed U packets from both encoders; (c) own Marshal output of generated D-values.",
+	"C08": "Cases: (limit row, side, value) for ~40 limit rows (enumerated list of the statement + general-clause rows) x {below, at, above, far beyond}, the probe planted into a generated surrounding value; plus plain D-values. Non-trivial: the probed field is within +-1 of its limit or beyond it; distinct by (row, side) and by the hash of the value.",
+	"C09": "Cases: byte strings with a high acceptance rate that are mostly not canonical: reference variant encodings (C04's generator), concatenations, frames extended by surplus words with the length fixed up, TWCC-targeted bytes, hostile mutations, frames >= 64 KiB. Non-trivial: accepted by rtcp.Unmarshal AND (not byte-identical to its re-encoding OR >= 2 packets). Distinct by FNV-1a of the bytes.",
+	"C10": "Cases: model values in D of every type (lists at 0/1/max, compound, raw). Non-trivial: the reference SSRC list is empty or has >= 2 entries. Distinct by FNV-1a of the JSON form.",
+	"C11": "Cases: all sequences of the 10 member kinds {SR, RR, SDES+CNAME, SDES-noCNAME, SDES-empty, BYE, FB, APP, XR, RAW} of length 0..L (quick 4, thorough 6), members drawn per sequence (CNAME at a drawn chunk/item position), two fault arms on every accepted sequence; plus generated sequences of length L+1..40. Every enumerated sequence is distinct and counted as non-trivial; long ones are distinct by hash.",
+	"C12": "Cases: sequence-number lists built from clusters with gaps {0,1,2,3,15,16,17,18,32,33}, bases near 0 / 65535, reversed or shuffled; all 2- and 3-element lists near 0 and the wrap; (PacketID, bitmap) pairs (quick 66 x 2^16, thorough all 2^32); early-stop positions 0..17. Non-trivial list: contains a gap of 16 or 17, a duplicate or a descending step (incl. the wrap); enumerated pairs are distinct by construction.",
+	"C13": "Cases: (A) TWCC-targeted byte strings (valid encodings, shifted status counts, random chunk words followed by exactly the delta octets they call for +-, replaced chunk words, status-counter-wrap recipe, declared length one word short, surplus octets); non-trivial: accepted and (>= 2 chunk kinds or a last chunk that overshoots/clips the status count). (B) status sequences x two independent chunkings; non-trivial: the chunkings differ and the sequence has both received and lost packets; exhaustive: all 3^n sequences (n <= 5 quick, 6 thorough) x all their chunkings.",
+	"C14": "Cases: all 2^24 (exponent, mantissa) wire pairs; non-negative finite float32 bitrates in bit-pattern order (quick: stride 509 plus dense windows of +-64 ulps around every power of two, every 0x3FFFF*2^e and the saturation point; thorough: all 2^31-2^23); SSRC list lengths 0..260, 511, 512; special values. Every enumerated value is distinct by construction.",
+	"C15": "Cases: XR packets with 0..8 (thorough 40) blocks over the 7 defined kinds and unknown kinds (BT 0, 8..255) with boundary-biased fields and list lengths; all 8^2+8^3 ordered pairs and triples of kinds with drawn fields. Non-trivial: >= 2 blocks of different kinds with a variable-length block not in last position. Distinct by FNV-1a of the JSON form.",
+	"C16": "Cases: the complete finite domain of each unit (chunk words, deltas, 24-bit loss, metric words, XR chunks: exhaustive in both tiers; header fields/words, NACK pairs, SLI words: strided by an odd multiplier (a bijection on the domain) plus bit-boundary sets in quick, exhaustive in thorough; FIR entries sampled). Every enumerated value is distinct by construction.",
+	"C17": "Cases: packets returned by rtcp.Unmarshal over generated inputs (<= 6 KiB); constructed values of every type with planted extreme bitrates (1e21.., MaxFloat32, Inf, NaN) and out-of-range enum values; REMB decoded from every exponent x strided (thorough: every) mantissa; all 256 values of 7 enum types and all 2^16 Chunk/PacketBitmap/Header values. Non-trivial: accepted input / non-empty list, out-of-range enum, planted bitrate.",
+	"C18": "Cases: (A) histories of 1..60 operations {Marshal, MarshalSize, DestinationSSRC, String, Header/Len, Validate/CNAME, Unmarshal direct/datagram} over a pool of built and decoded packets and input buffers (plain build); non-trivial: >= 3 distinct operations and >= 2 packets. (B) scripts for 4/16/32 goroutines (GOMAXPROCS 2/16) mixing own and shared packets and shared input buffers, run in the -race build and compared with a sequential run; distinct by hash of the operation lists.",
+}
 
 var commonAssumptions = []string{
 	"the Go toolchain, runtime and (for C18) race detector are correct",
 	"pgregory.net/rapid v1.3.0 generates and shrinks as documented",
 	"the independent reference model (refmodel) encodes this author's reading of the RFCs; it is self-tested (decode(encode(v)) == v) and anchored to third-party byte vectors",
-	"nothing is proved: counts below say how much was explored",
+	"cases attributed to a listed known finding (coverage.excluded_known) were re-judged under that finding's dialect, not skipped, unless the finding says the input class is excluded",
+	"nothing is proved: counts say how much was explored",
 }
 
 var assumptions = map[string][]string{}
